@@ -14,6 +14,7 @@
 package fschannel
 
 import (
+	"bytes"
 	"fmt"
 	"os"
 	"time"
@@ -93,31 +94,51 @@ func (f *rotateFile) Write(p []byte) (int, error) {
 	written := 0
 
 	for f.pos+int64(len(p)) > f.maxSize {
-		j := f.maxSize - int64(f.pos)
+		room := f.maxSize - f.pos
+		if room < 0 {
+			room = 0
+		}
 
-		for ; j > 0; j-- {
-			// line endings windows?
-			if p[j] == '\n' {
+		// split at the last newline before which everything still fits,
+		// the newline itself is not written
+		j := bytes.LastIndexByte(p[:room+1], '\n')
+		if j < 0 {
+			if f.pos > 0 {
+				// not even the first line fits, continue in a new file
+				if err := f.rotate(); err != nil {
+					return written, err
+				}
+
+				continue
+			}
+
+			// a single line larger than the maximum size gets a file of
+			// its own
+			j = bytes.IndexByte(p, '\n')
+			if j < 0 {
 				break
 			}
 		}
 
 		n, err := f.f.Write(p[:j])
+		f.pos += int64(n)
+		written += n
 		if err != nil {
-			return n, err
+			return written, err
 		}
 
-		written += n
+		// skip \n
+		written++
+
+		p = p[j+1:]
+		if len(p) == 0 {
+			return written, nil
+		}
 
 		// rotate
 		if err := f.rotate(); err != nil {
 			return written, err
 		}
-
-		// skip \n
-		written += 1
-
-		p = p[j+1:]
 	}
 
 	n, err := f.f.Write(p)
